@@ -528,11 +528,12 @@ func judgeError(r *mon.Run, c call, cas any) {
 	if strings.TrimSpace(v.Message) == "" {
 		r.Violate("message-empty", key(fmt.Sprintf("code %d", v.Code)), fmt.Sprintf("%s: empty message for %q", c.Entry, mon.Trunc(c.Text, 120)), cas)
 	}
-	if !v.Positioned || v.UserType != "" {
-		if v.UserType != "" {
-			r.Count("errors_inside_user_types_position_not_judged", 1)
-		}
+	if !v.Positioned {
 		return
+	}
+	if v.UserType != "" {
+		// an error inside a user type is judged like any other: against the text of the file it names
+		r.Count("errors_inside_user_types_judged", 1)
 	}
 	text := c.Text
 	if v.Filename != c.File {
